@@ -11,7 +11,7 @@ import warnings
 import numpy as np
 
 from . import probes
-from .common import digest
+from .common import scribble, digest
 from .replay_poplayout import build, features as pl_features
 
 chi = probes.chi
@@ -96,6 +96,7 @@ def replay_case(arg):
             warnings.simplefilter('ignore')
             hll, pop, lls, data, covs, fixed_vals, vals = build(shim, rng, 'io' + key)
             post = chi.HierarchicalLogPosterior(hll, make_prior(rec['names'][rec['nbottom']:]))
+            scribble(post)
     except Exception as e:
         fail('Construct', type(e).__name__, repr(e))
         return fails, cnt
